@@ -48,14 +48,24 @@ func (fakeCRS) Code() string        { return "" }
 // tile matrices 0..deepestID, tiles of 1x1 "pixels", root matrix 1x1, so level = id + 4 and
 // the internal pixel at the deepest id measures cellSize/16.
 func newSyntheticGrid(deepestID int, cellSize float64, ox, oy float64) (*Grid, error) {
+	return newSyntheticGridTW(deepestID, cellSize, ox, oy, 1)
+}
+
+// newSyntheticGridTW: the same with tiles of tw x tw "pixels" (tw need not be a power of two: IsQuadTree accepts such
+// sets, and the level of a tile matrix is then id + floor(log2 tw) + 4 at every site that computes it)
+func newSyntheticGridTW(deepestID int, cellSize float64, ox, oy float64, tw uint) (*Grid, error) {
 	origin := tms20.TwoDPoint([2]float64{ox, oy})
 	t := tms20.TileMatrixSet{CRS: fakeCRS{}, OrderedAxes: []string{"X", "Y"}, TileMatrices: map[tms20.TMID]tms20.TileMatrix{}}
 	for id := 0; id <= deepestID; id++ {
 		cs := cellSize * float64(uint(1)<<uint(deepestID-id))
 		t.TileMatrices[id] = tms20.TileMatrix{ID: strconv.Itoa(id), ScaleDenominator: cs / tms20.StandardizedRenderingPixelSize,
-			CellSize: cs, CornerOfOrigin: tms20.BottomLeft, PointOfOrigin: &origin, TileWidth: 1, TileHeight: 1, MatrixWidth: 1, MatrixHeight: 1}
+			CellSize: cs, CornerOfOrigin: tms20.BottomLeft, PointOfOrigin: &origin, TileWidth: tw, TileHeight: tw, MatrixWidth: 1, MatrixHeight: 1}
 	}
-	return gridFor(fmt.Sprintf("synthetic(d=%d,cell=%g,origin=%g,%g)", deepestID, cellSize, ox, oy), t, deepestID, true)
+	name := fmt.Sprintf("synthetic(d=%d,cell=%g,origin=%g,%g)", deepestID, cellSize, ox, oy)
+	if tw != 1 {
+		name += fmt.Sprintf(",tilewidth=%d", tw)
+	}
+	return gridFor(name, t, deepestID, true)
 }
 
 func gridFor(name string, t tms20.TileMatrixSet, deepestID int, dyadic bool) (*Grid, error) {
